@@ -308,6 +308,10 @@ def eval_expr(e, env):
             v = int(v)
         if ty in INT_BITS and isinstance(v, int):
             bits = INT_BITS[ty]
+            if v >= 0 and v >> bits:
+                # a narrowing cast makes the outcome periodic in the input: the
+                # interval partition by literals is no longer exact -> fail closed
+                raise Unsupported("narrowing cast of %d to %s loses bits" % (v, ty))
             v &= (1 << bits) - 1
             if ty.startswith("i") and v >> (bits - 1):
                 v -= 1 << bits
